@@ -19,7 +19,25 @@ TRUSTED = ["harness/drex.py generators and the counted exclusion rule: grains wh
            "or invariants in (0, 1e-9) are not compared numerically (rounding decides the branch); the property predicates are still evaluated on them"]
 
 
-def _predicates(res, case, out, tag):
+def _energy_scale(case):
+    """M * phi * sum f_i |E_i|: the conditioning of the zero-sum clause (each rate is M phi f_i (mean - E_i), formed by subtracting
+    energies that may agree to many digits); needs the private per-grain kernel, 0.0 when it is absent"""
+    from pydrex import core
+
+    rs = getattr(core, "_get_rotation_and_strain", None)
+    if rs is None:
+        return 0.0
+    try:
+        with np.errstate(all="ignore"):
+            E = np.array([rs(case["phase"], case["fabric"], case["A"][g], case["D"], case["L"], case["p"], case["nexp"], case["lam"])[1]
+                          for g in range(case["n"])])
+        v = float(case["M"] * case["phi"] * (case["f"] * np.abs(E)).sum())
+        return v if np.isfinite(v) else 0.0
+    except Exception:  # noqa: BLE001
+        return 0.0
+
+
+def _predicates(res, case, out, tag, extreme=False):
     rep = {k: (v.tolist() if hasattr(v, "tolist") else v) for k, v in case.items()}
     rep["path"] = tag
     if out[0] != "ok":
@@ -27,7 +45,12 @@ def _predicates(res, case, out, tag):
         return
     Ad, fd = out[1], out[2]
     if not (np.isfinite(Ad).all() and np.isfinite(fd).all()):
-        res.violation("total:nonfinite", f"derivatives returned non-finite values ({tag})", rep)
+        if extreme and np.abs(case["L"]).max() > 1e150 and case["lam"] == 0:
+            # |L| > 1e150 with nucleation efficiency exactly 0: the SQUARE of the dislocation density overflows and exp(-0 * inf) is NaN
+            res.violation("total:nonfinite:squared_density_overflow(|L|>1e150,lambda=0)", f"derivatives returned non-finite values ({tag}): "
+                          "rho**2 overflows for |L| > ~1e154 and exp(-0*inf) = NaN", rep)
+        else:
+            res.violation("total:nonfinite", f"derivatives returned non-finite values ({tag})", rep)
         return
     A, f = case["A"], case["f"]
     for g in range(case["n"]):
@@ -38,7 +61,8 @@ def _predicates(res, case, out, tag):
                 res.violation("skew:spin_not_skew", f"A^-1.Adot is not skew for grain {g} ({tag})", rep)
                 break
     s = np.abs(fd).sum()
-    if abs(f.sum() - 1) < 1e-12 and abs(fd.sum()) > 1e-9 * max(s, 1e-300) + 1e-13:
+    # tolerance: relative to sum|rates| and to the natural scale M phi sum f|E| of the subtraction (extreme magnitudes: energies ~1e66)
+    if abs(f.sum() - 1) < 1e-12 and abs(fd.sum()) > 1e-9 * max(s, 1e-300) + 1e-13 + (1e-12 * _energy_scale(case) if extreme else 0.0):
         res.violation("volume:sum_nonzero", f"sum of fraction rates {fd.sum()!r} (|.|sum {s!r}) ({tag})", rep)
     if np.any(fd[f == 0] != 0):
         res.violation("volume:dead_grain_grows", f"zero-volume grain has non-zero rate ({tag})", rep)
@@ -86,6 +110,11 @@ def run(ctx, res):
         s_ = float(10.0 ** (sgn * rng_x.uniform(85, 290)))
         c.update(L=c["L"] * s_, D=c["D"] * s_, kinds=(c["kinds"][0], c["kinds"][1], f"{c['kinds'][2]}*1e{int(np.log10(s_))}"))
         extreme.append(c)
+    # fixed witness of the recorded finding (known_findings/C03.json): lambda* = 0 and |L| = 1e160
+    cw = drex.make_case(np.random.default_rng(3031), 3, nmax=1)
+    cw.update(A=np.ascontiguousarray(drex.rotations(np.random.default_rng(3032), cw["n"], "random")), lam=0.0, p=2.0, nexp=2.0)
+    cw.update(L=cw["L"] * 1e160, D=cw["D"] * 1e160, kinds=("random", cw["kinds"][1], "witness*1e160"))
+    extreme.insert(0, cw)
     drex.variant_checks(res, rng, ctx, "total")
     outs_int = [drex.call_derivatives(c) for c in cases]
     outs_jit = drex.run_jit(cases + extreme + ([big] if ctx["thorough"] else []))
@@ -101,8 +130,8 @@ def run(ctx, res):
         res.nontrivial(("extreme", c["A"].tobytes(), c["L"].tobytes()))
         if np.isfinite(c["L"]).all():
             with np.errstate(all="ignore"):
-                _predicates(res, c, drex.call_derivatives(c), "interpreted,extreme magnitude")
-            _predicates(res, c, oj_, "jit,extreme magnitude")
+                _predicates(res, c, drex.call_derivatives(c), "interpreted,extreme magnitude", extreme=True)
+            _predicates(res, c, oj_, "jit,extreme magnitude", extreme=True)
     if ctx["thorough"]:
         ob = outs_jit.pop()
         res.evaluations += 1
